@@ -1,4 +1,5 @@
 import BHS.Props.C05
+import BHS.Props.SqlShape
 open BHS.Props.C05
 #print axioms C05_restart_id
 #print axioms C05_restart_fresh
@@ -12,3 +13,4 @@ open BHS.Props.C05
 #print axioms C05_redeliver_history
 #print axioms C05_rows_survive
 #print axioms C05_acknowledged_survive
+#print axioms BHS.Props.SqlShape.add_statements
